@@ -17,7 +17,10 @@ from symex import show, walk
 EXPLANATION = __doc__
 TRUSTED = ["rustc / extractor", "[u8; 32] == [u8; 32] compares every byte", "num-bigint: x % m and == 0 are exact"]
 NOT_DECIDED = []
-FLOORS = {"reject-set": 1, "identity": 2, "validated": 3, "client-test": 3, "premise": 1}
+def floors_for(feats):
+    if "srp-default-math" in feats:
+        return {"reject-set": 1, "identity": 2, "validated": 3, "client-test": 3, "premise": 1}
+    return {"reject-set": 1, "identity": 2, "validated": 2, "premise": 1}
 FN = "key::PublicKey::from_le_bytes"
 PK = "key::PublicKey"
 ERR = "error::InvalidPublicKeyError"
